@@ -390,11 +390,24 @@ fn stag(input: &str) -> IResult<&str, model::Element<'_>> {
     map(
         delimited(
             tag("<"),
-            tuple((qname, many0(preceded(multispace1, attribute)))),
+            tuple((
+                qname,
+                verify(many0(preceded(multispace1, attribute)), unique_att_spec),
+            )),
             tuple((multispace0, tag(">"))),
         ),
         model::Element::from,
     )(input)
+}
+
+/// No attribute name may appear more than once in the same start-tag or empty-element tag.
+///
+/// [WFC: Unique Att Spec](https://www.w3.org/TR/2008/REC-xml-20081126/#uniqattspec)
+fn unique_att_spec(attributes: &Vec<model::Attribute<'_>>) -> bool {
+    attributes
+        .iter()
+        .enumerate()
+        .all(|(i, a)| attributes[..i].iter().all(|b| a.name != b.name))
 }
 
 /// Name Eq AttValue
@@ -457,7 +470,10 @@ fn empty_entity_tag(input: &str) -> IResult<&str, model::Element<'_>> {
     map(
         delimited(
             tag("<"),
-            tuple((qname, many0(preceded(multispace1, attribute)))),
+            tuple((
+                qname,
+                verify(many0(preceded(multispace1, attribute)), unique_att_spec),
+            )),
             tuple((multispace0, tag("/>"))),
         ),
         model::Element::from,
